@@ -12,7 +12,7 @@ class C08(C06):
     LEMMA_FILES = ["FluentProofs/ResolverRefineTop.lean", "FluentProofs/ResolverRefineVal.lean"]
     RULE = ("histories on ONE bundle: every request of a GR bundle issued 2-4 times in random order interleaved with the "
             "other requests (so plural rules are cached and earlier calls have produced errors), the same argument set "
-            "inserted in different orders, and each request repeated on a FRESH bundle (second bundle case on the same "
+            "inserted in different orders (also by re-setting a key that is already present), and each request repeated on a FRESH bundle (second bundle case on the same "
             "line). Non-trivial = the history repeats at least one request whose resolution involved a reference, select or "
             "error; distinct = distinct case line.")
     EXPLANATION = ("Theorems: format_pattern and write_pattern of the model coincide (text and errors) for every bundle, "
@@ -50,6 +50,14 @@ class C08(C06):
                 if "&" in a and rng.random() < 0.7:
                     parts = a.split("&")
                     rng.shuffle(parts)
+                    if len(parts) >= 3 and rng.random() < 0.5:
+                        # the same final set reached by RE-SETTING a key that is already present (last one wins)
+                        k = rng.randrange(len(parts))
+                        final = parts.pop(k)
+                        key = final.split("=")[0]
+                        old_v = rng.choice(["i7", "s" + hx("old"), "z", "n2/2"])
+                        parts.insert(rng.randrange(len(parts) + 1), "%s=%s" % (key, old_v))
+                        parts.append(final)
                     aa = "&".join(parts)
                 reqs.append("%s:%s:%s" % (hx(m), at, aa))
         rng.shuffle(reqs)
@@ -78,7 +86,10 @@ class C08(C06):
     def canon_req(rq):
         i, a, args = rq.split(":")
         if "&" in args:
-            args = "&".join(sorted(args.split("&")))
+            last = {}
+            for kv in args.split("&"):          # a key set twice: the last value wins (C11)
+                last[kv.split("=")[0]] = kv
+            args = "&".join(sorted(last.values()))
         return (i, a, args)
 
     def predicate(self, case, impl_obs):
